@@ -113,10 +113,60 @@ class LibMixin:
             r = self.dict_comprehension(e, path)
             if r is not None:
                 return r
+        if kind in ("dict", "list") and len(e.generators) == 1 and not e.generators[0].ifs and self.frame_depth == 0 \
+                and self.cur_contract is not None:
+            r = self.effectful_comprehension(e, path, kind)
+            if r is not None:
+                return r
         if kind == "list" and len(e.generators) == 1 and all(self.is_pure_expr(c) for c in e.generators[0].ifs) \
                 and self.is_pure_expr(e.elt):
             return self.filter_comprehension(e, path)
         raise Unsupported(f"{kind} comprehension over a symbolic sequence with filter / several generators", e)
+
+    def effectful_comprehension(self, e, path, kind):
+        """{k: f(x) for x in xs} / [f(x) for x in xs] whose element has effects: executed as the loop
+              $res = {} / []; for x in xs: $res[k] = f(x) / $res.append(f(x))
+        cut by the sidecar invariant registered under the loop key "c<n>" (n-th such comprehension in source order)"""
+        import copy as _copy
+
+        key = self.comp_ordinals.get(id(e))
+        spec = self.cur_contract.loops.get(key) if key else None
+        if spec is None:
+            return None
+        self.used_loops.add(key)
+        gen = e.generators[0]
+        res_name = "$res"
+        path.env[res_name] = self.empty_dict() if kind == "dict" else self.list_of([])
+        if kind == "dict":
+            tgt = ast.Subscript(value=ast.Name(id=res_name, ctx=ast.Load()), slice=e.key, ctx=ast.Store())
+            body = [ast.Assign(targets=[tgt], value=e.value)]
+        else:
+            call = ast.Call(func=ast.Attribute(value=ast.Name(id=res_name, ctx=ast.Load()), attr="append", ctx=ast.Load()), args=[e.elt], keywords=[])
+            body = [ast.Expr(value=call)]
+        loop = ast.For(target=gen.target, iter=gen.iter, body=body, orelse=[])
+        ast.copy_location(loop, e)
+        for n in ast.walk(loop):
+            if not hasattr(n, "lineno"):
+                ast.copy_location(n, e)
+        ast.fix_missing_locations(loop)
+        self.loop_ordinals[id(loop)] = key
+        outs = self._s_For(loop, path)
+        from .stmt import NEXT, RAISE
+        from .stmt import RaisedInExpr
+        nexts = [o for o in outs if o[0] == NEXT]
+        raises = [o for o in outs if o[0] == RAISE]
+        alls = nexts + raises
+        if not alls:
+            from .path import DeadPath
+            raise DeadPath()
+        k = self.choose_n(path, len(alls)) if len(alls) > 1 else 0
+        kind2, p2, val = alls[k]
+        env, guards, memo, pos = path.env, path.guards, path.memo, path.memo_pos
+        path.__dict__.update(p2.__dict__)
+        path.guards, path.memo, path.memo_pos = guards, memo, pos
+        if kind2 == RAISE:
+            raise RaisedInExpr(path, val)
+        return path.env.pop(res_name)
 
     def dict_comprehension(self, e, path):
         """{k: v for k, v in d.items() if P}: same keys and values, filtered (the only shape finam uses)"""
